@@ -93,6 +93,22 @@ def run(rep, info, model, tier, seed):
                 variants.append([stream[:p], stream[p:]])
         groups.append((kind, [make(hs, body, [c for c in v if c], app, ks) for v in variants]))
         rep.count("stream_kind", kind)
+    # connections that negotiated permessage-deflate: the reply and the compressed messages behind it in one read, cut inside
+    # the reply, cut exactly behind it, cut anywhere
+    from . import c06
+    for i in range(8 if tier == "quick" else 60):
+        z = c06.gen(rnd, rnd.choice([9, 12, 15]), rnd.choice([9, 15]), rnd.random() < 0.3, rnd.random() < 0.3)
+        z = fam.strip_meta(z)
+        stream = b"".join(st[2] for st in z["steps"] if st[0] == "data")
+        hl = stream.index(b"\r\n\r\n") + 4
+        variants = [[stream[j:j + 65536] for j in range(0, len(stream), 65536)], [stream[:hl], stream[hl:]]]
+        for p_ in (hl - 30, hl - 3, hl - 1, hl + 1, hl + 2, hl + 7):
+            if 0 < p_ < len(stream):
+                variants.append([stream[:p_], stream[p_:]])
+        for _ in range(6):
+            variants.append(scen.chunkings(rnd, stream, rnd.choice(["random", "small"])))
+        groups.append(("deflate", [dict(z, steps=scen.steps_from_chunks([c for c in v if c])) for v in variants]))
+        rep.count("stream_kind", "deflate")
     # exhaustive cut sets of short frame sequences
     exh = []
     nshort = 10 if tier == "quick" else 24
@@ -165,7 +181,7 @@ def run(rep, info, model, tier, seed):
         sc, a, b = first
         rep.broken("correspondence C02: model and implementation disagree on %d scenarios; first %s impl=%r model=%r" % (dis, core.json.dumps(fam.jsonable_sc(sc), default=core._jsonable)[:800], a[:30], b[:30]))
     rep.families.append(dict(name="C02:metamorphic-segmentations", cases=total, groups=len(groups) + len(exh),
-                             rule="for each server stream (valid, with an injected violation, with application close/sends, header block at the 16 KiB limit): one read, byte-at-a-time, handshake|frames, random cut sets, every single cut near the handshake/frame boundary; plus ALL 2^(n-1) cut sets for %d short frame sequences (n<=%d); all traces (events with payloads + bytes written) must be identical; the first variants are also compared with the model" % (len(exh), maxlen),
+                             rule="for each server stream (valid, with an injected violation, with application close/sends, header block at the 16 KiB limit, compressed messages behind a reply that negotiates permessage-deflate): one read, byte-at-a-time, handshake|frames, random cut sets, every single cut near the handshake/frame boundary; plus ALL 2^(n-1) cut sets for %d short frame sequences (n<=%d); all traces (events with payloads + bytes written) must be identical; the first variants are also compared with the model" % (len(exh), maxlen),
                              oracle_failures=viol, disagreements=dis))
     rep.exhaustive["all cut sets of the frame part for the short streams"] = True
     if not proof_ok and not rep.violations:
